@@ -18,6 +18,30 @@ CHECKS = {
               "nesting 9998..10002) are executed first and their logged acceptance is validated by TLC against the same automaton."),
         note="Bounded-exhaustive plus sampled; trusted: TLC, CommunityModules, the byte<->int projection. Unmarshal-into-any is compared only where it is a pure acceptor.",
         design_ref="5 (C01), 4.1"),
+    "C02": dict(
+        technique="TLC trace validation: every logged Marshal/MarshalWrite/MarshalEncode output with nil error is run through the specification's JSON recogniser (checked against the grammar by TLC) under the effective options; routes must agree",
+        text=("The driver marshals values of random reflect-built types - including maps with NaN/any/text-marshaler keys, raw values, invalid UTF-8 strings, > 64 fields - whose leaves are "
+              "sprinkled with types carrying adversarial MarshalJSON / MarshalJSONTo / MarshalText / AppendText methods (arbitrary bytes, 0/1/2 values, open objects, ErrUnsupported after use, "
+              "swallowed nested errors) and caller-supplied MarshalFunc/MarshalToFunc, under 10 option sets, through Marshal, MarshalWrite (bytes.Buffer and plain writer) and MarshalEncode. TLC "
+              "(Trace_Arshal) requires every nil-error output to be exactly one JSON value valid under the effective AllowInvalidUTF8/AllowDuplicateNames, all routes to succeed or fail together "
+              "with the same value, and no panic."),
+        note="Sampled (6k quick / 200k thorough cases); the generator bounds the explored type universe.",
+        design_ref="5 (C02)"),
+    "C03": dict(
+        technique="TLA+ meaning of a text (JsonValue.tla) compared by TLC with the projected Go tree for 10 decoding routes; acceptance iff valid, fitting and no overflow",
+        text=("For each logged (text, route) TLC recomputes validity with the automaton and the value tree with JsonValue.tla, and requires the untyped target to hold exactly that tree (strings "
+              "by code points, arrays in order, objects as member sets, numbers as the nearest float64) and an error exactly for invalid texts, kind mismatches of map/slice targets and float64 "
+              "overflow - through Unmarshal, UnmarshalRead, UnmarshalDecode over chunked streams, the generic map[string]any / []any machinery, a named interface, and option sets that disable the "
+              "specialised untyped decoder."),
+        note="Number rounding is supplied by the strconv projection (decided in C10); sampled texts incl. interning-cache adversaries and 16..19-digit integers.",
+        design_ref="5 (C03)"),
+    "C04": dict(
+        technique="TLC trace validation of Marshal/Unmarshal/Marshal chains: validity, equality of value trees (JsonValue.tla), fixed point, projected Go equality",
+        text=("Random values of random types x 10 symmetric option sets are marshaled, unmarshaled into a zero value, marshaled again (and once more); TLC requires out1 valid, accepted by "
+              "Unmarshal, out2 denoting the same tree as out1 (identical bytes under Deterministic) unless omit options are present, out3 = out2 always, and - where Go equality is meaningful - "
+              "the decoded value equal to the original with nil/empty identified, floats by bit pattern and integers exactly."),
+        note="Relational check between real executions with TLC deciding validity/meaning equality; Go-side equality is a projection fact. No exhaustive float32 sweep.",
+        design_ref="5 (C04)"),
     "C05": dict(
         technique="TLA+ Decoder state machine over the token table (reader schedule absent from the state); TLC-enumerated call programs replayed under all read compositions; TLC trace validation of faulted and long random executions",
         text=("Decoder.tla makes every ReadToken/ReadValue/SkipValue/PeekKind/StackPointer call a function of the input's token table and the decoder state only. "
